@@ -6,7 +6,7 @@ use tensor_store::{ScalarValue, TensorData, TensorStore, TensorValue};
 use crate::{
     chunker::{Chunk, Chunker, StreamingHasher},
     error::{BlobError, Result},
-    gc::increment_chunk_refs,
+    gc::{increment_chunk_refs_locked, ref_count_lock},
     metadata::PutOptions,
 };
 
@@ -96,10 +96,13 @@ impl BlobWriter {
     fn store_chunk(&mut self, chunk: Chunk) -> Result<()> {
         let chunk_key = chunk.key();
 
-        // Check if chunk already exists (deduplication)
-        if self.store.exists(&chunk_key) {
-            // Increment reference count
-            increment_chunk_refs(&self.store, &chunk_key)?;
+        // The existence test, the count update and the insertion form one step per chunk:
+        // neither a collector pass nor another writer of the same content may run in between.
+        let _count_guard = ref_count_lock(&chunk_key);
+
+        // Check if chunk already exists (deduplication) and take a reference on it
+        if self.store.exists(&chunk_key) && increment_chunk_refs_locked(&self.store, &chunk_key)? {
+            // deduplicated: the existing chunk now counts this reference
         } else {
             // Store new chunk
             let mut tensor = TensorData::new();
